@@ -2,7 +2,7 @@
    (Model/Host.v: Host::parse with any IDNA function, Display for Host): the two premises of rt_bracket -
    the text is bracketed, Host::parse inverts Display (C09) - hold for every IPv6 address. *)
 From RU Require Import Base.Prelude Base.Utf8 Gen.Tables Model.HostT Model.Host Model.UrlRecord Model.Parser Model.Origin
-  Proofs.C09_V6 Proofs.C09_Wf Proofs.C09_Host Proofs.C16_Conc Proofs.C16_Origin Proofs.ListN Proofs.C16_RT Proofs.C16_RT6.
+  Spec.WhatwgHost Proofs.C09_V6 Proofs.C09_Wf Proofs.C09_Host Proofs.C16_Conc Proofs.C16_Origin Proofs.ListN Proofs.C16_RT Proofs.C16_RT6.
 
 Lemma lower_hex_v6c c : is_lower_hex c = true -> v6c c = true.
 Proof. unfold is_lower_hex, is_digit, v6c. cbn [memb]. lia. Qed.
@@ -99,3 +99,79 @@ Example ipv6_texts :
   /\ ascii_serialization Host.host_display (Tuple s_http (HIpv6 [8193; 3512; 0; 0; 1; 0; 0; 1]) 80)
      = [104; 116; 116; 112; 58; 47; 47; 91; 50; 48; 48; 49; 58; 100; 98; 56; 58; 58; 49; 58; 48; 58; 48; 58; 49; 93].
 Proof. vm_compute. repeat split. Qed.
+
+(* ---------- every host the host model returns ---------- *)
+Lemma forbidden_plain_sweep :
+  all_below 128 (fun c => Spec.forbidden_domain_code_point c || plainc c) = true.
+Proof. vm_compute. reflexivity. Qed.
+
+Lemma forbidden_plain c : c < 128 -> Spec.forbidden_domain_code_point c = false -> plainc c = true.
+Proof.
+  intros Hc Hf. pose proof (all_below_spec 128 _ forbidden_plain_sweep c Hc) as H. cbv beta in H.
+  rewrite Hf in H. exact H.
+Qed.
+
+Lemma digit_dot_plain c : is_digit c = true \/ c = 46 -> plainc c = true.
+Proof. unfold is_digit, plainc. cbn [memb]. lia. Qed.
+
+Section ModelHosts.
+Variable idna : list N -> option (list N).
+Hypothesis OK : IdnaOK idna.
+
+(* what Host::parse (host model, IDNA function satisfying IdnaOK) returns has a plain or a bracketed text,
+   Display is host_fmt on it, and Host::parse reads the text back as the same host *)
+Lemma model_host_text input h : Host.host_parse idna input = Ok h ->
+  (plain_text (host_fmt Host.host_display h) \/ bracket_text (host_fmt Host.host_display h))
+  /\ Host.host_display h = host_fmt Host.host_display h
+  /\ Host.host_parse idna (host_fmt Host.host_display h) = Ok h.
+Proof.
+  intros H. pose proof (host_parse_ok_x _ _ _ H) as Hx.
+  assert (Hfmt : Host.host_display h = host_fmt Host.host_display h) by (destruct h; reflexivity).
+  split; [|split; [exact Hfmt|]].
+  - destruct h as [d|a|ps].
+    + left. cbn [host_fmt]. destruct (parse_domain idna input d Hx) as (_ & Hne & _). split; [exact Hne|].
+      apply forallb_forall. intros c Hc. pose proof (domain_form idna OK input d Hx) as Hd.
+      rewrite Forall_forall in Hd. destruct (Hd c Hc) as (H1 & _ & H3). now apply forbidden_plain.
+    + left. cbn [host_fmt Host.host_display].
+      assert (Ha : a < 4294967296).
+      { unfold host_parse_x in Hx. destruct (Host.starts_with 91 input).
+        { destruct (bracketed_ok _ _ Hx) as (x & Hx' & _). discriminate Hx'. }
+        destruct (idna (PercentEncoding.decode (utf8_encode input))) as [dom|]; [|discriminate].
+        destruct dom as [|c dom']; [discriminate|].
+        destruct (ends_in_a_number (c :: dom')); [|discriminate].
+        destruct (parse_ipv4addr (c :: dom')) as [x| | |] eqn:E; cbn [xr_map] in Hx; try discriminate.
+        inversion Hx; subst. eapply parse_ipv4addr_bound. exact E. }
+      destruct (ipv4_display_digits a Ha) as (Hd & Hn & _). split; [exact Hn|].
+      apply forallb_forall. intros c Hc. rewrite Forall_forall in Hd. apply digit_dot_plain. now apply Hd.
+    + right. cbn [host_fmt Host.host_display].
+      assert (Hw : wf8 ps).
+      { unfold host_parse_x in Hx. destruct (Host.starts_with 91 input).
+        - destruct (bracketed_ok _ _ Hx) as (x & Hx' & Hw). inversion Hx'; subst. exact Hw.
+        - destruct (idna (PercentEncoding.decode (utf8_encode input))) as [dom|]; [|discriminate].
+          destruct dom as [|c dom']; [discriminate|].
+          destruct (ends_in_a_number (c :: dom')); [|discriminate].
+          destruct (parse_ipv4addr (c :: dom')); cbn [xr_map] in Hx; discriminate. }
+      destruct Hw as [_ Hw]. exists (write_ipv6 ps). split; [reflexivity|]. exact (proj1 (write_ipv6_chars ps Hw)).
+  - rewrite <- Hfmt. apply x_ok_host_parse. eapply special_display_rt; eassumption.
+Qed.
+
+End ModelHosts.
+
+(* the ASCII round trip for every tuple whose host was returned by the host model's Host::parse *)
+Definition rt_host_model_stmt : Prop :=
+  forall dbg idna ho s h p input,
+    IdnaOK idna -> Host.host_parse idna input = Ok h ->
+    In s five_schemes -> p <= 65535 ->
+    nlen (ascii_serialization Host.host_display (Tuple s h p)) < U32_MAX_P ->
+    exists w, url_parse dbg (Host.host_parse idna) ho Host.host_display
+                (ascii_serialization Host.host_display (Tuple s h p)) = POk w
+              /\ forall f k, url_origin_fuel dbg (Host.host_parse idna) ho Host.host_display f k w
+                             = OOk (Tuple s h p) k.
+
+Theorem rt_host_model : rt_host_model_stmt.
+Proof.
+  intros dbg idna ho s h p input OK Hh H5 Hp HB.
+  destruct (model_host_text idna OK input h Hh) as ([Hpl|Hbr] & Hfmt & Hrt).
+  - exact (proj1 (rt_plain dbg (Host.host_parse idna) ho Host.host_display (fun d => d) s h p H5 Hp Hpl Hfmt Hrt HB)).
+  - exact (proj1 (rt_bracket dbg (Host.host_parse idna) ho Host.host_display (fun d => d) s h p H5 Hp Hbr Hfmt Hrt HB)).
+Qed.
